@@ -216,7 +216,30 @@ def case_dimraise(case):
     return r.done(outcome=[cls, d0, d1, "accepted"])
 
 
-GROUPS = {"matrix": case_matrix, "spectrum": case_spectrum, "accept": case_accept, "dimraise": case_dimraise}
+def case_reject(case):
+    """a rejected assignment (value outside the bounds that guarantee validity) leaves a valid model behind"""
+    r = R()
+    cls, d, attr, bad = case["cls"], case["dim"], case["attr"], case["bad"]
+    opts = case["opts"]
+    m = getattr(gs, cls)(dim=d, len_scale=1.0, var=1.5, **opts)
+    old = float(getattr(m, attr))
+    extra = {"cls": cls, "dim": d, "attr": attr, "bad": bad}
+    try:
+        setattr(m, attr, bad)
+        raised = False
+    except ValueError:
+        raised = True
+    r.true("assignment outside the bounds is refused", raised, info={"value now": float(getattr(m, attr))}, **extra)
+    r.close("after a refused assignment the parameter has its old value", float(getattr(m, attr)), old, rtol=0, atol=0, **extra)
+    pos = lattice(d, {1: 12, 2: 6, 3: 5}[d], 0.5)
+    dist = np.linalg.norm(pos[:, :, None] - pos[:, None, :], axis=0)
+    Cm = np.asarray(m.covariance(dist)) + m.nugget * np.eye(dist.shape[0])
+    ev = np.linalg.eigvalsh((Cm + Cm.T) / 2)
+    r.true("after a refused assignment the covariance matrix has no negative eigenvalue", ev[0] >= -1e-10 * abs(np.trace(Cm)), info=float(ev[0]), **extra)
+    return r.done(outcome=[cls, d, attr, raised])
+
+
+GROUPS = {"reject": case_reject, "matrix": case_matrix, "spectrum": case_spectrum, "accept": case_accept, "dimraise": case_dimraise}
 
 
 def run(chk):
@@ -262,6 +285,10 @@ def run(chk):
                 if nu >= lo(d0) and (cls != "JBessel" or nu > -0.5 + 1e-9 or d0 == 1):
                     dr.append({"cls": cls, "d0": d0, "d1": d1, "nu": float(nu)})
     chk.run("dimraise", case_dimraise, dr, rule="classes with dimension dependent bounds (JBessel, SuperSpherical, TPLSimple) x every ordered pair of dimensions 1-4 x shape parameter at / just above / just below the bounds of both dimensions: the model is built and used in the first dimension, dim is assigned in place; the change is refused or the model is valid in the new dimension (documented bound and eigenvalues)", chunk=8, min_outcomes=2)
+    rj = []
+    for d in (1, 2, 3):
+        rj += [{"cls": "JBessel", "dim": d, "opts": {"nu": d / 2 + 0.5}, "attr": "nu", "bad": d / 2 - 1.4}, {"cls": "SuperSpherical", "dim": d, "opts": {"nu": (d - 1) / 2 + 1.0}, "attr": "nu", "bad": (d - 1) / 2 - 0.5}, {"cls": "TPLSimple", "dim": d, "opts": {"nu": (d + 1) / 2 + 1.0}, "attr": "nu", "bad": (d + 1) / 2 - 0.5}, {"cls": "Stable", "dim": d, "opts": {"alpha": 1.5}, "attr": "alpha", "bad": 2.6}, {"cls": "Matern", "dim": d, "opts": {"nu": 1.0}, "attr": "nu", "bad": 0.01}, {"cls": "Gaussian", "dim": d, "opts": {}, "attr": "nugget", "bad": -0.3}, {"cls": "Exponential", "dim": d, "opts": {}, "attr": "var", "bad": -1.0}, {"cls": "Gaussian", "dim": d, "opts": {}, "attr": "len_scale", "bad": -2.0}]
+    chk.run("reject", case_reject, rj, rule="class x dim x parameter: an assignment outside the documented bounds is refused and leaves the old value and a positive semi-definite covariance", chunk=8, min_outcomes=2)
     # controls (bounds of SuperSpherical / TPLSimple are violated on purpose through set_arg_bounds)
     cres = []
     for c in ctrl_m:
